@@ -92,6 +92,12 @@ const IDIOMS: &[(&str, &str)] = &[
         "list_ties_and_random",
         "=== k@ ===\n~ pick@ = LIST_RANDOM(pool@)\nDrew {pick@} of {pool@}: {LIST_ALL(pick@)}.\n~ pick@ = LIST_MIN(pool@)\nMin {pick@}: {LIST_ALL(pick@)} max {LIST_MAX(pool@)}: {LIST_ALL(LIST_MAX(pool@))}.\n~ pool@ -= pick@\nRest {pool@} {LIST_ALL(LIST_RANDOM(pool@))} {A@(1)} {B@(3)}.\n-> NEXT\nGLOB LIST A@ = x, y, w\nGLOB LIST B@ = x, z, w\nGLOB VAR pool@ = (A@.x, B@.x, A@.w, B@.w, B@.z)\nGLOB VAR pick@ = ()\n",
     ),
+    (
+        // two items of ONE list share a value: which item a number stands for must not depend
+        // on hash order (list from number, list + n, list - n, ++, --)
+        "list_duplicate_values",
+        "=== k@ ===\n~ cur@ = D@.lo\nTwo is {D@(2)} and {D@(2)}, three is {D@(3)}.\n~ cur@ = cur@ + 1\nUp {cur@}: {LIST_ALL(cur@)}.\n~ cur@ = D@.hi - 1\nDown {cur@} {D@.lo + 1} {D@.hi - 1}.\n~ cur@++\n~ cur@--\nBack {cur@} of {LIST_ALL(cur@)}.\n-> NEXT\nGLOB LIST D@ = lo = 1, mid = 2, med = 2, mod = 2, hi = 3\nGLOB VAR cur@ = ()\n",
+    ),
 ];
 
 pub fn idiom_count() -> usize {
